@@ -427,7 +427,11 @@ class Fn:
             if name in self.cfg.get("trace", []):
                 ints = []
                 for a in self.inner(n)[1:]:
-                    if ctype(qual(a))[0] in ("int", "bool", "enum"):
+                    x = a
+                    while x.get("kind") in ("ImplicitCastExpr", "ParenExpr", "ConstantExpr"):
+                        x = self.inner(x)[0]
+                    is_enum = x.get("kind") == "DeclRefExpr" and x.get("referencedDecl", {}).get("kind") == "EnumConstantDecl"
+                    if is_enum or ctype(qual(a))[0] in ("int", "bool", "enum"):
                         try:
                             ints.append(self.E(a))
                         except Unsupported:
@@ -458,7 +462,16 @@ class Fn:
             inn = self.inner(s)
             evs = []
             self.traced(s, evs)
-            return self.with_events(evs, self.exit_expr(self.E(inn[0]) if inn else None))
+            ret = None
+            if inn:
+                try:
+                    ret = self.E(inn[0])
+                except Unsupported:
+                    # a non-integer result (e.g. a text): 1 = produced by a traced call, 0 = a literal
+                    if not self.cfg.get("ret_flag"):
+                        raise
+                    ret = "1" if evs else "0"
+            return self.with_events(evs, self.exit_expr(ret))
         if k == "IfStmt":
             inn = self.inner(s)
             if s.get("hasInit") or s.get("hasVar"):
@@ -481,7 +494,9 @@ class Fn:
                 elif "va_list" in qual(d) or "va_list" in (d.get("type", {}).get("qualType") or ""):
                     pass                      # the variadic cursor: its uses (va_start/va_end, pass-through) carry no integer data
                 elif di:
-                    raise Unsupported("local of type %s with initialiser" % qual(d))
+                    # an object local (e.g. `TestFailure f(&test, detector->report(p))`): only the traced calls in its initialiser count
+                    for c in di:
+                        self.traced(c, evs)
             body = self.SS(rest)
             for nm, e in reversed(lets):
                 body = "(let %s := %s in %s)" % (nm, e, body)
@@ -528,6 +543,8 @@ class Fn:
             raise Unsupported("call statement to %s (list it in trace or ignore_calls)" % name)
         if k in ("VAArgExpr",):
             return self.SS(rest)
+        if k in ("ExprWithCleanups", "CXXBindTemporaryExpr", "MaterializeTemporaryExpr", "ParenExpr", "ImplicitCastExpr"):
+            return self.SS(self.inner(s)[:1] + rest)
         raise Unsupported("statement kind %s in a state-mode function" % k)
 
     @staticmethod
